@@ -743,6 +743,7 @@ func Run(c *ev.Ctx) int {
 	// credentials that WERE valid: rotated / deleted / re-created accounts (history.go)
 	historyLane(c, "h", gw.Config{Versioning: true})
 	regionLane(c)
+	gatedCredentialLane(c)
 	var names []string
 	for _, d := range defects() {
 		names = append(names, d.name)
